@@ -116,7 +116,8 @@ def krylovsolve(
     args = _kwargs_migration(_args, args, "args")
     options = _kwargs_migration(_options, options, "options")
     H = QobjEvo(H, args=args, tlist=tlist)
-    options = options or {}
+    # A copy: the dictionary of the caller is not modified.
+    options = dict(options or {})
     options["method"] = "krylov"
     options["krylov_dim"] = krylov_dim
     solver = SESolver(H, options=options)
